@@ -123,6 +123,10 @@ class C41(Prop):
             "cases with a point outside the box incl. one ulp outside (ValueError); the first "
             "point also handed over as a 1-D array; query arrays checked unmodified and handed "
             "over as float64 C-order, Fortran-order, non-contiguous and negative-stride views; "
+            "40% of the in-box cases add a call HISTORY on one standard and one adaptive table "
+            "object: 2-4 mixed interpolate/gradient calls whose query buffer is reused and mutated "
+            "in place (x[:] = new points, x += shift), passed fresh, or passed again unchanged; "
+            "every call is checked at the current points and the buffer is asserted unmodified; "
             "18% of the cases use integer boxes with query arrays of dtype int64/int32 "
             "(integer points strictly inside cells, on nodes and upper faces) or float32 "
             "(points on a 1/8 lattice) for interpolate and gradient of both tables; "
@@ -295,12 +299,39 @@ class C41(Prop):
                 else:              # one ulp outside the lower face
                     pts[j][i] = Fr(float(np.nextafter(float(low[i]), float("-inf"))))
                     hair = True
+            hist = None
+            if kind == "inbox" and rng.random() < 0.4:
+                # a call history on ONE table object: 2-4 interpolate/gradient calls; the query
+                # buffer is reused and mutated in place (x[:] = new, x += shift), passed fresh,
+                # or passed again unchanged
+                nq = rng.randint(1, 3)
+                hist, prev = [], None
+                for st in range(rng.randint(2, 4)):
+                    if st == 0:
+                        mode = rng.choice(["inplace", "inplace", "fresh"])
+                    elif st == 1 and rng.random() < 0.6:
+                        mode = rng.choice(["inplace", "iadd"])
+                    else:
+                        mode = rng.choice(["inplace", "iadd", "fresh", "same"])
+                    if mode == "same" and prev is not None:
+                        hp = prev
+                    else:
+                        hp = []
+                        for _q in range(nq):
+                            modes = [rng.choice(["in", "in", "line", "lower", "upper"]) for _ in range(d)]
+                            q_ = [coord(i, m) for i, m in enumerate(modes)]
+                            hp.append([min(max(c, low[i]), high[i]) for i, c in enumerate(q_)])
+                    prev = hp
+                    op = None if rng.random() < 0.55 else rng.randrange(d)
+                    hist.append({"op": op, "mode": mode,
+                                 "pts": [[[c.numerator, c.denominator] for c in p_] for p_ in hp]})
             yield {
                 "d": d, "npt": npt,
                 "low": [[c.numerator, c.denominator] for c in low],
                 "high": [[c.numerator, c.denominator] for c in high],
                 "cs": cs, "css": css, "default_base": bool(zero_low),
                 "pts": [[[c.numerator, c.denominator] for c in p] for p in pts],
+                "hist": hist,
                 "kind": kind,
                 "cmp_store": bool(dyadic_h and not near and not hair),
                 # memory layout of the query array handed to the tables
@@ -392,7 +423,47 @@ class C41(Prop):
             aout = [o[:len(aq)] for o in aout]
         comps = [{"interp": interp[k], "grads": [g[k] for g in grads], "aout": aout[k],
                   "single": single[k]} for k in range(dim)]
-        return {"comps": comps, "aq": aq, "aerr": aerr, "nstored": nstored(),
+        hist_out = None
+        if case.get("hist"):
+            hist_out = []
+            for which in ("std", "adp"):
+                if which == "std":
+                    tb = InterpolationTable(low, high, npt, func, dim=dim)
+                else:
+                    tb = AdaptiveInterpolationTable(dx=(high - low) / (npt - 1), base_point=base,
+                                                    function=func, dim=dim)
+                buf = None
+                for si, st in enumerate(case["hist"]):
+                    P = np.array([[float(_fr(c)) for c in p] for p in st["pts"]]).T.reshape(d, -1)
+                    mode = st["mode"]
+                    if buf is None or mode == "fresh":
+                        x = P.copy()
+                        if mode != "fresh":
+                            buf = x
+                    elif mode == "inplace":
+                        buf[:] = P
+                        x = buf
+                    elif mode == "iadd":
+                        buf += P - buf
+                        if not np.array_equal(buf, P):
+                            buf[:] = P
+                        x = buf
+                    else:           # "same": the identical array object, unchanged (after an
+                        # intermediate fresh-array call the buffer is refilled in place)
+                        if not np.array_equal(buf, P):
+                            buf[:] = P
+                        x = buf
+                    assert np.array_equal(x, P), "harness: history buffer out of sync"
+                    if st["op"] is None:
+                        o = call(lambda: tb.interpolate(x))
+                    else:
+                        o = call(lambda: tb.gradient(x, st["op"]))
+                    assert np.array_equal(x, P), "query buffer was modified by the call"
+                    if which == "std":
+                        hist_out.append({"std": split(o)})
+                    else:
+                        hist_out[si]["adp"] = split(o)
+        return {"comps": comps, "aq": aq, "aerr": aerr, "nstored": nstored(), "hist_out": hist_out,
                 "interp": comps[0]["interp"], "grads": comps[0]["grads"], "aout": comps[0]["aout"]}
 
     # ---------------------------------------------------------------- oracle
@@ -412,6 +483,32 @@ class C41(Prop):
             why = self._oracle_component(case, cs, dict(comp, aq=res["aq"]))
             if why:
                 return why if len(css) == 1 else f"component {k} of the vector-valued table: {why}"
+        return self._oracle_history(case, res)
+
+    def _oracle_history(self, case, res):
+        if not case.get("hist") or not res.get("hist_out"):
+            return None
+        d = case["d"]
+        css = [[_cf(c) for c in cs] for cs in case.get("css", [case["cs"]])]
+        for si, (st, ho) in enumerate(zip(case["hist"], res["hist_out"])):
+            pts = [[_fr(c) for c in p] for p in st["pts"]]
+            what = "interpolate" if st["op"] is None else f"gradient(axis={st['op']})"
+            tag = f"call {si + 1} of a history on one table ({what}, query array {st['mode']})"
+            for k, cs in enumerate(css):
+                for which, name in (("std", "standard"), ("adp", "adaptive")):
+                    o = ho[which][k]
+                    if o[0] == "err":
+                        return f"{tag}: {name} table raised {o[1]}"
+                    for j, p in enumerate(pts):
+                        if st["op"] is None:
+                            exact = _mlin(d, cs, p)
+                        elif _is_affine(d, cs):
+                            exact = Fr(_affine_coeff(d, cs, st["op"]))
+                        else:
+                            exact = _partial(d, cs, p, st["op"])
+                        if not _close(Fr(o[1][j]), exact):
+                            return (f"{tag}: {name} table at point {[str(c) for c in p]} = "
+                                    f"{o[1][j]!r}, exact {float(exact)!r}")
         return None
 
     def _oracle_component(self, case, cs, res):
@@ -475,6 +572,21 @@ class C41(Prop):
             terms.append(f"agree_out {_out(comp['single'])} (interpolate_batch ({t}) [{clist(pts[0], q)}])")
         if res.get("aerr"):
             terms.append("false")      # the model's adaptive table never raises inside the box
+        if case.get("hist") and res.get("hist_out"):
+            # every call of the history against the model at the CURRENT points (the model is
+            # stateless; for multilinear functions the adaptive table equals the standard one,
+            # C41_adaptive_agrees / C41_adaptive_gradient_multilinear_exact)
+            for k, cs in enumerate(css):
+                t = (f"mk_table {clist(case['low'], q)} {clist(case['high'], q)} {clist(case['npt'], cz)} "
+                     f"(mlin {cnat(d)} {clist(cs, lambda c: cq(_cf(c)))})")
+                sub = []
+                for st, ho in zip(case["hist"], res["hist_out"]):
+                    hx = clist(st["pts"], lambda p: clist(p, q))
+                    m = (f"(interpolate_batch tb {hx})" if st["op"] is None
+                         else f"(gradient_batch tb {hx} {cnat(st['op'])})")
+                    sub.append(f"agree_out {_out(ho['std'][k])} {m}")
+                    sub.append(f"agree_out {_out(ho['adp'][k])} {m}")
+                terms.append(f"let tb := {t} in " + " && ".join(f"({x})" for x in sub))
         return " && ".join(f"({t})" for t in terms)
 
     def coq_diag(self, case, res):
